@@ -5,6 +5,7 @@ import InvProxy.Model.Route
 import InvProxy.Model.Seeker
 import InvProxy.Model.Dedup
 import InvProxy.Model.Inject
+import InvProxy.Model.ShimUrl
 open InvProxy Driver
 
 /-- suite `backoff`: `target <n>` ↦ un-jittered target in ns;  `loop <pattern of 0/1>` ↦ retry counts slept with -/
@@ -127,11 +128,27 @@ def identityStep (_ : Unit) : List String → Unit × String
     ((), canonHeader (Gen.agent_forwardRequestHeader (fu == "1") (sc == "1") (unhexD u) (parseCanonHeader h)))
   | _ => ((), "bad-op")
 
+/-- suite `shimurl`: `open <scheme> <opaque> <hasUser> <host> <backend> <reparseOk>` | `route <prefix> <path>` -/
+def shimurlStep (_ : Unit) : List String → Unit × String
+  | ["open", sch, op, usr, host, backend, ok] =>
+    let u : WsUrl := { Scheme := unhexD sch, Opaque := unhexD op, User := if usr == "1" then some [] else none, Host := unhexD host,
+                       Path := [], RawPath := [], OmitHost := false, ForceQuery := false, RawQuery := [], Fragment := [], RawFragment := [] }
+    match ShimUrl.dialOutcome (ok == "1") (Gen.websockets_rewriteTarget (unhexD backend) u) with
+    | .refused => ((), "refused")
+    | .dial h => ((), if h == unhexD backend then "dial" else "foreign")
+    | .foreign => ((), "foreign")
+  | ["route", pre, p] =>
+    match ShimUrl.route (unhexD pre) (unhexD p) with
+    | .shim => ((), "shim")
+    | .wrapped => ((), "wrapped")
+  | _ => ((), "bad-op")
+
 def main (args : List String) : IO UInt32 := do
   let stdin ← IO.getStdin
   let stdout ← IO.getStdout
   match args with
   | ["backoff"] => loop stdin stdout backoffStep (); return 0
+  | ["shimurl"] => loop stdin stdout shimurlStep (); return 0
   | ["identity"] => loop stdin stdout identityStep (); return 0
   | ["banner"] => loop stdin stdout bannerStep (); return 0
   | ["splice"] => loop stdin stdout spliceStep []; return 0
